@@ -252,7 +252,8 @@ CHECKS["C02"] = dict(
           "commit fdadc7f: start_discover really swaps portal rows 1 and 2) and of the Jolt boolean loop (the lead's Model/JoltLoop.v, the "
           "loop as it is since 3066ace) replay in binary64 inside coqc the support traces recorded from the implementation: every search "
           "direction, iteration count and answer must agree; differences are looked at a second time under few-ulp perturbations (near-ties "
-          "excused and counted). NOT proved: anything else about the five algorithms themselves - termination, the True exits, accuracy in "
+          "excused and counted; a difference in the Jolt loop's exit decision of at most one iteration with equal search directions and no "
+          "differing answer is looked at a third time under 1e-14 / 1e-13 perturbations). NOT proved: anything else about the five algorithms themselves - termination, the True exits, accuracy in "
           "floating point; the Nesterov boolean test has no model here (C09 replays that loop); njit division by zero (ZeroDivisionError) has "
           "no outcome in the models. Known findings: none."),
     design_ref="DESIGN.md section 5, C02; section 2.3",
